@@ -211,7 +211,9 @@ impl Actor for W {
     }
 
     async fn pre_stop(&self, _me: &Mailbox<Self>, _s: &mut ()) -> Result<(), String> {
-        self.hook("pre_stop", self.spec.prestop_ok)
+        let r = self.hook("pre_stop", self.spec.prestop_ok);
+        nap(self.spec.stop_delay).await;
+        r
     }
 
     async fn post_stop(&self, _me: &Mailbox<Self>, _s: &mut ()) -> Result<(), String> {
@@ -303,6 +305,7 @@ impl Handler<SupervisionEvent<W>> for Sup {
                     poststop_ok: true,
                     sup: true,
                     pre_delay: 0,
+                    stop_delay: 0,
                 };
                 lock(&self.sh.specs)[b] = Some(spec.clone());
                 spawn_async(&self.sh, Cluster::current(), SUP, b, spec, Some(me.clone())).await;
